@@ -225,6 +225,37 @@ func check(rec *hx.Recorder, c optCase, labels map[string]int) (string, bool) {
 			}
 		}
 	}
+	// the same options given to DecodeChained hold for every file of the chain
+	if !failing && c.Chunk.CutAt < 0 && c.Chunk.FaultAt < 0 {
+		chain := append(append([]byte(nil), data...), data...)
+		for _, set := range []int{6, 7} {
+			var fs []*fit.File
+			var err error
+			lg := &captureLogger{}
+			opts := []fit.DecodeOption{fit.WithUnknownFields(), fit.WithUnknownMessages()}
+			if set&1 != 0 {
+				opts = append(opts, fit.WithLogger(lg))
+			}
+			if p := oracle.Catch(func() { fs, err = fit.DecodeChained(gen.NewReader(chain, c.Chunk), opts...) }); p != nil {
+				return fmt.Sprintf("DecodeChained panicked with option set %03b: %v\nstream: %s", set, p, c.Text), false
+			}
+			if err != nil || len(fs) != 2 {
+				return fmt.Sprintf("DecodeChained with option set %03b on the stream twice: %d files, err=%v\nstream: %s", set, len(fs), err, c.Text), false
+			}
+			want := results[set]
+			for i, f := range fs {
+				if fmt.Sprint(f.UnknownFields) != fmt.Sprint(want.uf) || fmt.Sprint(f.UnknownMessages) != fmt.Sprint(want.um) ||
+					(f.UnknownFields == nil) != want.ufNil || (f.UnknownMessages == nil) != want.umNil {
+					return fmt.Sprintf("DecodeChained with option set %03b: file %d of 2 reports unknown fields %v / messages %v, Decode of the same bytes with the same options reports %v / %v\nstream: %s",
+						set, i+1, f.UnknownFields, f.UnknownMessages, want.uf, want.um, c.Text), false
+				}
+			}
+			if set&1 != 0 && lg.n < 2*want.logged {
+				return fmt.Sprintf("DecodeChained with a logger over two copies logged %d times, Decode of one copy logs %d times\nstream: %s", lg.n, want.logged, c.Text), false
+			}
+			labels["chained with options"]++
+		}
+	}
 	if len(ip.UnknownMsgs) > 0 {
 		labels["has unknown message"]++
 	}
